@@ -8,14 +8,22 @@ use std::panic::{catch_unwind, AssertUnwindSafe};
 use std::sync::Mutex;
 
 use serde_json::{json, Value};
-use sylvia::cw_multi_test::{App as MtApp, AppResponse, Executor, SudoMsg, WasmSudo};
+use sylvia::cw_multi_test::{custom_app, AppResponse, BasicApp, Executor, SudoMsg, WasmSudo};
 use sylvia::cw_std::{
     coins, to_json_binary, Addr, Binary, Coin, CosmosMsg, Empty, QueryRequest, StdError, WasmMsg, WasmQuery,
 };
 use sylvia::cw_utils::{parse_execute_response_data, parse_instantiate_response_data};
 use sylvia::multitest::App;
 
-pub type SApp = App<MtApp>;
+/// the chain under test: cw-multi-test's basic app over the contract's custom message / query types
+pub type MtApp<C, Q> = BasicApp<C, Q>;
+pub type SApp<C, Q> = App<MtApp<C, Q>>;
+
+/// custom message / query types a chain can be built over
+pub trait ChainMsg: sylvia::cw_std::CustomMsg + serde::de::DeserializeOwned + 'static {}
+impl<T: sylvia::cw_std::CustomMsg + serde::de::DeserializeOwned + 'static> ChainMsg for T {}
+pub trait ChainQuery: sylvia::cw_std::CustomQuery + std::fmt::Debug + serde::de::DeserializeOwned + 'static {}
+impl<T: sylvia::cw_std::CustomQuery + std::fmt::Debug + serde::de::DeserializeOwned + 'static> ChainQuery for T {}
 
 #[derive(Clone, Debug, PartialEq)]
 pub enum Out {
@@ -86,10 +94,10 @@ pub struct Actors {
     pub stranger: Addr,
 }
 
-pub fn new_chain() -> (MtApp, Actors) {
+pub fn new_chain<C: ChainMsg, Q: ChainQuery>() -> (MtApp<C, Q>, Actors) {
     let mut owner = Addr::unchecked("o");
     let mut stranger = Addr::unchecked("s");
-    let app = MtApp::new(|router, api, storage| {
+    let app = custom_app::<C, Q, _>(|router, api, storage| {
         owner = api.addr_make("owner");
         stranger = api.addr_make("stranger");
         router.bank.init_balance(storage, &owner, coins(10, "atom")).unwrap();
@@ -97,7 +105,7 @@ pub fn new_chain() -> (MtApp, Actors) {
     (app, Actors { owner, stranger })
 }
 
-pub fn dump(app: &MtApp, actors: &Actors, insts: &[Addr], n_codes: usize) -> Value {
+pub fn dump<C: ChainMsg, Q: ChainQuery>(app: &MtApp<C, Q>, actors: &Actors, insts: &[Addr], n_codes: usize) -> Value {
     let mut cs = vec![];
     for a in insts {
         let cd = app.contract_data(a).map(|d| json!({"code_id": d.code_id, "creator": d.creator, "admin": d.admin, "label": d.label})).unwrap_or(json!("missing"));
@@ -116,11 +124,11 @@ pub fn dump(app: &MtApp, actors: &Actors, insts: &[Addr], n_codes: usize) -> Val
 
 // raw operations -------------------------------------------------------------------------------
 
-pub fn raw_instantiate<E>(app: &mut MtApp, sender: &Addr, code_id: u64, json: &str, funds: &[Coin], label: &str, admin: Option<String>, salt: Option<&[u8]>) -> (Out, Option<Addr>)
+pub fn raw_instantiate<E, C: ChainMsg, Q: ChainQuery>(app: &mut MtApp<C, Q>, sender: &Addr, code_id: u64, json: &str, funds: &[Coin], label: &str, admin: Option<String>, salt: Option<&[u8]>) -> (Out, Option<Addr>)
 where
     E: std::fmt::Debug + std::fmt::Display + Send + Sync + 'static + From<StdError>,
 {
-    let msg: CosmosMsg = match salt {
+    let msg: CosmosMsg<C> = match salt {
         None => WasmMsg::Instantiate { admin, code_id, msg: Binary::from(json.as_bytes().to_vec()), funds: funds.to_vec(), label: label.to_string() }.into(),
         Some(s) => WasmMsg::Instantiate2 { admin, code_id, label: label.to_string(), msg: Binary::from(json.as_bytes().to_vec()), funds: funds.to_vec(), salt: Binary::from(s.to_vec()) }.into(),
     };
@@ -134,29 +142,29 @@ where
     }
 }
 
-pub fn raw_exec<E>(app: &mut MtApp, sender: &Addr, contract: &Addr, json: &str, funds: &[Coin]) -> Out
+pub fn raw_exec<E, C: ChainMsg, Q: ChainQuery>(app: &mut MtApp<C, Q>, sender: &Addr, contract: &Addr, json: &str, funds: &[Coin]) -> Out
 where
     E: std::fmt::Debug + std::fmt::Display + Send + Sync + 'static + From<StdError>,
 {
-    let msg: CosmosMsg = WasmMsg::Execute { contract_addr: contract.to_string(), msg: Binary::from(json.as_bytes().to_vec()), funds: funds.to_vec() }.into();
+    let msg: CosmosMsg<C> = WasmMsg::Execute { contract_addr: contract.to_string(), msg: Binary::from(json.as_bytes().to_vec()), funds: funds.to_vec() }.into();
     match app.execute(sender.clone(), msg) {
         Ok(r) => ok_exec(r, true),
         Err(e) => raw_err::<E>(e),
     }
 }
 
-pub fn raw_migrate<E>(app: &mut MtApp, sender: &Addr, contract: &Addr, json: &str, new_code_id: u64) -> Out
+pub fn raw_migrate<E, C: ChainMsg, Q: ChainQuery>(app: &mut MtApp<C, Q>, sender: &Addr, contract: &Addr, json: &str, new_code_id: u64) -> Out
 where
     E: std::fmt::Debug + std::fmt::Display + Send + Sync + 'static + From<StdError>,
 {
-    let msg: CosmosMsg = WasmMsg::Migrate { contract_addr: contract.to_string(), new_code_id, msg: Binary::from(json.as_bytes().to_vec()) }.into();
+    let msg: CosmosMsg<C> = WasmMsg::Migrate { contract_addr: contract.to_string(), new_code_id, msg: Binary::from(json.as_bytes().to_vec()) }.into();
     match app.execute(sender.clone(), msg) {
         Ok(r) => ok_exec(r, false),
         Err(e) => raw_err::<E>(e),
     }
 }
 
-pub fn raw_sudo<E>(app: &mut MtApp, contract: &Addr, json: &str) -> Out
+pub fn raw_sudo<E, C: ChainMsg, Q: ChainQuery>(app: &mut MtApp<C, Q>, contract: &Addr, json: &str) -> Out
 where
     E: std::fmt::Debug + std::fmt::Display + Send + Sync + 'static + From<StdError>,
 {
@@ -166,11 +174,11 @@ where
     }
 }
 
-pub fn raw_query<T: serde::de::DeserializeOwned + serde::Serialize, E>(app: &MtApp, contract: &Addr, json: &str) -> Out
+pub fn raw_query<T: serde::de::DeserializeOwned + serde::Serialize, E, C: ChainMsg, Q: ChainQuery>(app: &MtApp<C, Q>, contract: &Addr, json: &str) -> Out
 where
     E: std::fmt::Debug + std::fmt::Display + Send + Sync + 'static + From<StdError>,
 {
-    let req: QueryRequest<Empty> = QueryRequest::Wasm(WasmQuery::Smart { contract_addr: contract.to_string(), msg: Binary::from(json.as_bytes().to_vec()) });
+    let req: QueryRequest<Q> = QueryRequest::Wasm(WasmQuery::Smart { contract_addr: contract.to_string(), msg: Binary::from(json.as_bytes().to_vec()) });
     match app.wrap().query::<T>(&req) {
         Ok(v) => Out::Ok { events: String::new(), data: None, addr: None, value: Some(serde_json::to_string(&v).unwrap()) },
         Err(e) => Out::Typed(format!("{:?}", E::from(e))),
